@@ -144,6 +144,13 @@ func runHistory(cs c06Case) (outs map[int][]string, digests [][]string, err erro
 			}
 			digests = append(digests, []string{d0, treeDigest(tree, src)})
 			kept[op.Doc] = &keptTree{md, tree, src}
+		case "foreign":
+			// another instance built from the same package-level extension values, every option flipped
+			f := cs.Config
+			f.Unsafe, f.XHTML, f.HardWraps, f.AutoID, f.Attr = !f.Unsafe, !f.XHTML, !f.HardWraps, !f.AutoID, !f.Attr
+			var sink bytes.Buffer
+			_ = f.build().Convert(src, &sink)
+			continue
 		case "rerender":
 			k := kept[op.Doc]
 			if k == nil {
@@ -212,10 +219,17 @@ func runC06(c *Ctx) {
 		"the tree digest covers what renderers read: kinds, child counts, attributes, line and text segments, flags, link/image fields",
 	}
 	ev.Set("rule", "case = one history (sequence of Convert / Parse+Render / ReRender calls, long-lived or fresh instance) replayed with concrete documents, or one ordered pair X then Y; evaluations counts API calls; distinct = distinct (configuration, document assignment, history); non-trivial = histories in which a document is processed after a different document on the long-lived instance or a tree is rendered twice")
+	// ---- before anything else runs in this process: instances built from the same package-level
+	// extension values must not reach each other. Something an instance sets on a shared object
+	// at its first use sticks for the rest of the process, so the reference outputs are taken
+	// before any instance with other options has converted anything (action Foreign of
+	// Instance.tla; negative control SharedSingleton).
+	c06CrossInstance(c)
 	// ---- MC
+	RunTLC(TLCOpts{Module: "Instance", Cfg: "Instance_neg_shared.cfg", Workers: 2}).MustViolate("neg SharedSingleton", "Pure")
 	RunTLC(TLCOpts{Module: "Instance", Cfg: "Instance_neg_leaky.cfg", Workers: 2}).MustViolate("neg LeakyContext", "Pure")
 	RunTLC(TLCOpts{Module: "Instance", Cfg: "Instance_neg_mutates.cfg", Workers: 2}).MustViolate("neg RenderMutates", "Pure")
-	ev.Set("negative_controls", []string{"LeakyContext => Pure violated", "RenderMutates => Pure violated"})
+	ev.Set("negative_controls", []string{"LeakyContext => Pure violated", "RenderMutates => Pure violated", "SharedSingleton => Pure violated"})
 	genCfg, maxLen := "Instance_gen3.cfg", 3
 	if c.Thorough() {
 		genCfg, maxLen = "Instance_gen4.cfg", 4
@@ -360,4 +374,47 @@ func runC06(c *Ctx) {
 	for i := 0; i < len(cases); i += len(cases)/4 + 1 {
 		c.Sample("history", 4, map[string]interface{}{"config": cases[i].Config.String(), "history": cases[i].Hist, "documents": len(cases[i].Pool)})
 	}
+}
+
+// c06CrossInstance: for every extension set, the documents are converted by a first instance
+// with all options off, then by instances with every other option combination, then by a new
+// instance with all options off again (and the same the other way round, starting from all
+// options on, in a child... the process can only be clean once, so the all-off direction is the
+// one taken here; C07's fresh-process runs cover start-up in the other order).
+func c06CrossInstance(c *Ctx) {
+	docs := append([]string{}, c06StateDocs...)
+	docs = append(docs, "a[^1] b[^2]\n\n[^1]: x\n\n[^2]: y\n", "a\nb <br> ![i](/s) ***\n\n---\n", "- [ ] a\n- [x] b\n\n| a |\n|:-:|\n| b |\n", "# h\n\nterm\n: def\n\n\"q\" -- www.a.bc\n")
+	exts := []string{"all", "gfm", "footnote", "nocjk", "deflist", "typographer", "table", "tasklist", "linkify", "strikethrough"}
+	n := 0
+	for _, e := range exts {
+		base := mdConfig{Ext: e}
+		first := base.build()
+		refs := make([]string, len(docs))
+		for i, d := range docs {
+			o, err := convertWith(first, []byte(d))
+			if err != nil {
+				infra("C06 prologue: %v", err)
+			}
+			refs[i] = string(o)
+		}
+		for mask := 1; mask < 32; mask++ {
+			f := mdConfig{Ext: e, Unsafe: mask&1 != 0, XHTML: mask&2 != 0, HardWraps: mask&4 != 0, AutoID: mask&8 != 0, Attr: mask&16 != 0}
+			md := f.build()
+			for _, d := range docs {
+				_, _ = convertWith(md, []byte(d))
+				n++
+			}
+		}
+		again := base.build()
+		for i, d := range docs {
+			o, err := convertWith(again, []byte(d))
+			n++
+			if err != nil || string(o) != refs[i] {
+				cs := c06Case{Config: base, Pool: []rawDoc{rawDoc(d)}, Hist: []c06Op{{"convert", 0, true}, {"foreign", 0, true}, {"convert", 0, true}}}
+				c.Report(Violation{Signature: "C06/other-instance-changes-output", Detail: fmt.Sprintf("extension set %s, all options off: document %q renders %q on the first instance of the process and %q on a new instance after instances with other options have converted it", e, clip(d, 120), clip(refs[i], 300), clip(string(o), 300)), Replay: cs})
+				break
+			}
+		}
+	}
+	c.Ev.Add("cross_instance_conversions", int64(n))
 }
